@@ -219,9 +219,9 @@ def read_positions(text, positions, what):
                 del todo[i]
                 break
         else:
-            return f'{text!r} shows {g!r} which is not a lot of {what}'
+            return f'{text!r} shows {g!r} which is not a lot of {show(what)}'
     if todo:
-        return f'{text!r} does not show {[str(p) for p in todo]} of {what}'
+        return f'{text!r} does not show {[str(p) for p in todo]} of {show(what)}'
     return None
 
 
@@ -290,7 +290,7 @@ def read_scalar(dtype, v, cell, listsep):
     if dtype is Cost:
         return read_cost(cell, v)
     if dtype is Inventory:
-        return read_positions(cell, v.get_positions(), show(v))
+        return read_positions(cell, v.get_positions(), v)
     raise AssertionError(dtype)
 
 
